@@ -85,6 +85,50 @@ def run(ctx):
             out = [[0, 0]]
         events.append({"op": "factor", "n": n, "out": out})
     ctx.nontrivial_n += len(ns)
+    # beyond 31 bits: products of three and more primes above the table's last prime 1229 (equal, close, far apart), squares of
+    # products, with small factors mixed in; every prime factor below 2^31 so that TLC can test it by trial division
+    P = [1231, 1237, 1249, 1259, 1277, 1279, 1283, 1289, 1291, 1297, 2003, 4099, 32749, 46337, 65537, 1000003]
+    bigs = [1231 * 1237 * 1249 * 1259, (1231 * 1237) ** 2, 1231 ** 4, 1231 ** 2 * 1237 ** 2 * 1249, 1231 * 1237 * 1249,
+            1231 * 1237 * 1249 * 1259 * 1277, 2 ** 5 * 3 * 1231 * 1237 * 1249 * 1259, 1283 * 1289 * 1291 * 1297,
+            (1283 * 1297) ** 2, 1229 ** 2 * 1231 ** 2, 65537 ** 2 * 1231, 1231 * 1237 * 1000003, 46337 ** 3, 2003 * 4099 * 32749 * 7,
+            1231 ** 3 * 1237, (1249 * 1259 * 1277) ** 2]
+    for _ in range(10 if quick else 120):
+        k = rnd.choice((3, 3, 4, 4, 5))
+        v = 1
+        for q in (rnd.sample(P[:10], k) if rnd.random() < 0.7 else [rnd.choice(P) for _ in range(k)]):
+            v *= q
+        bigs.append(v)
+    for n in bigs:
+        try:
+            out, ok = [[int(p_), int(e_)] for p_, e_ in nt.factorization(n)], True
+        except BaseException:  # noqa
+            out, ok = [], False
+        if any(p_ >= 2 ** 31 for p_, e_ in out):
+            out, ok = [], False          # cannot be a prime factor of these inputs
+        events.append({"op": "big-factor", "n": n2l(n), "out": out, "ok": ok})
+    ctx.nontrivial_n += len(bigs)
+    # primes that divide the constants of the published deterministic Miller-Rabin base sets (a witness base that is a multiple
+    # of n says nothing about n)
+    consts = [2, 325, 9375, 28178, 450775, 9780504, 1795265022, 336781006125, 9639812373923155, 4230279247111683200,
+              14694767155120705706, 16641139526367750375, 2570940, 880937, 610386380, 4130785767, 211991001, 3749873356,
+              15, 7363882082, 992620450144556, 31, 73, 350, 3958281543, 1005905886, 1340600841, 553174392, 3046413974, 203659041]
+    sp = ntdrv.small_primes(10 ** 5)
+    special = set()
+    for cst in consts:
+        v = cst
+        for q in sp:
+            if q * q > v:
+                break
+            while v % q == 0:
+                special.add(q)
+                v //= q
+        if 1 < v < 2 ** 31:
+            special.add(v)           # cofactor: prime if below 10^10, decided by TLC anyway
+    for q in sorted(special):
+        if q > top:
+            events.append({"op": "isprime", "lo": q - 1, "hi": q + 1, "primes": [n for n in range(q - 1, q + 2) if nt.is_prime(n) is True],
+                           "nonbool": []})
+            events.append({"op": "nextprime", "lo": q - 1, "hi": q - 1, "outs": [int(nt.next_prime(q - 1))]})
     # gcd / lcm: all tuples of length 1..3 from a range, both calling conventions
     vals = list(range(-12, 31)) if not quick else [-12, -4, -1, 0, 1, 2, 3, 4, 6, 8, 9, 12, 15, 25, 30]
     tuples = [(a,) for a in vals] + [(a, b) for a in vals for b in vals] + \
